@@ -145,6 +145,77 @@ def refFloatOps : FloatOps UInt64 where
   lt a b := decide (fkey a < fkey b)
   zero := 0
 
+/-! #### IEEE-754 binary64 at the level of its three fields: what a bit pattern MEANS, and subtraction as "round the exact
+    difference".  Nothing below mentions `fkey`: the order of the VALUES is defined from (sign, exponent, mantissa) by the
+    standard's formula, and that it coincides with the sign-magnitude order of the bits is a theorem
+    (CelloProofs/Lemmas/CmpFloat.lean `fval_lt_iff_fkey_lt`). -/
+
+/-- biased exponent (11 bits) -/
+def fExp (b : UInt64) : Nat := ((b >>> 52) &&& 0x7ff).toNat
+/-- mantissa field (52 bits) -/
+def fMant (b : UInt64) : Nat := (b &&& 0xfffffffffffff).toNat
+/-- sign bit -/
+def fNeg (b : UInt64) : Bool := b ≥ 0x8000000000000000
+def fIsInf (b : UInt64) : Bool := (b &&& 0x7fffffffffffffff) == 0x7ff0000000000000
+
+/-- the magnitude a (sign, exponent, mantissa) triple denotes, in units of 2^-1074 (the smallest denormal), so that every
+    finite double is an INTEGER: denormals (`e = 0`) are `m`, normal numbers `(2^52 + m) · 2^(e-1)`.  The same formula at
+    `e = 2047, m = 0` gives the infinities a magnitude above every finite one (`2^52 · 2^2046 > (2^53 - 1) · 2^2045`), which
+    is all the extended reals need here. -/
+def fmagOf (e m : Nat) : Nat := if e = 0 then m else (4503599627370496 + m) * 2 ^ (e - 1)
+
+def fmag (b : UInt64) : Nat := fmagOf (fExp b) (fMant b)
+
+/-- the VALUE of a non-NaN double (scaled by 2^1074): `(-1)^s · magnitude`; `-0.0` and `0.0` both have value 0 -/
+def fval (b : UInt64) : Int := if fNeg b then -((fmag b : Nat) : Int) else ((fmag b : Nat) : Int)
+
+/-- the default NaN x86-64 SSE produces for an invalid operation (`inf - inf`) -/
+def fDefaultNaN : UInt64 := 0xfff8000000000000
+
+/-- IEEE-754 subtraction and `<` on bit patterns, relative to a rounding function `rnd` from exact (scaled) values to doubles:
+    `a - b` is NaN when an operand is NaN or both are the same infinity (invalid operation); an infinite operand otherwise
+    decides the result by itself (`±inf - x = ±inf`, `x - ±inf = ∓inf`); for two finite operands it is the exact difference
+    of the two values, rounded.  `<` is exact, and false whenever an operand is NaN.  Every finite double is an integer
+    multiple of 2^-1074, so the exact difference of two of them is an integer in these units. -/
+def roundedOps (rnd : Int → UInt64) : FloatOps UInt64 where
+  sub a b :=
+    if fIsNaN a || fIsNaN b then fDefaultNaN
+    else if fIsInf a then (if fIsInf b && (fNeg a == fNeg b) then fDefaultNaN else a)
+    else if fIsInf b then b + 0x8000000000000000          -- the other infinity (adding 2^63 modulo 2^64 flips the sign bit)
+    else rnd (fval a - fval b)
+  lt a b := !fIsNaN a && !fIsNaN b && decide (fval a < fval b)
+  zero := 0
+
+/-- what the theorems need of a rounding function: it is monotone, it never produces a NaN, and it leaves 0 and the two
+    smallest denormals `± 2^-1074` as they are (they are representable: GRADUAL UNDERFLOW — a flush-to-zero unit violates
+    `one`).  Every rounding-direction attribute of IEEE-754 (§4.3) has these properties; so has the trivial `signRound`
+    below.  The order of the doubles in terms of their bits is NOT assumed here. -/
+structure Rounding (rnd : Int → UInt64) : Prop where
+  mono : ∀ x y : Int, x ≤ y → fval (rnd x) ≤ fval (rnd y)
+  notNaN : ∀ x : Int, fIsNaN (rnd x) = false
+  zero : fval (rnd 0) = 0
+  one : fval (rnd 1) = 1
+  negOne : fval (rnd (-1)) = -1
+
+/-- the coarsest function with these properties: it keeps the sign of the exact difference and nothing else (`±2^-1074`, 0).
+    `Float_Cmp` looks at nothing but the sign of the difference, so the driver runs the model with this one. -/
+def signRound (x : Int) : UInt64 := if 0 < x then 0x0000000000000001 else if x < 0 then 0x8000000000000001 else 0
+
+/-- round toward zero (IEEE-754 `roundTowardZero`), on magnitudes: the bits of the largest double not above `n · 2^-1074`.
+    Below 2^53 (denormals and the first binade) the bits ARE the number; halving the number raises the exponent by one. -/
+def truncBits (n : Nat) : Nat :=
+  if n < 9007199254740992 then n else truncBits (n / 2) + 4503599627370496
+termination_by n
+decreasing_by omega
+
+/-- … saturating at the largest finite double (what `roundTowardZero` does on overflow), with the sign put back -/
+def truncRound (x : Int) : UInt64 :=
+  let m := Nat.min (truncBits x.natAbs) 0x7fefffffffffffff
+  UInt64.ofNat (if x < 0 then 0x8000000000000000 + m else m)
+
+/-- the operations the driver runs `Float_Cmp` with -/
+def ieeeOps : FloatOps UInt64 := roundedOps signRound
+
 /-! ### the value universe of the op files and `cmp` on it -/
 
 inductive SeqKind where
@@ -192,50 +263,54 @@ def entriesCmp (ops : FloatOps UInt64) : List (Val × Val) → List (Val × Val)
     if c < 0 then -1 else if c > 0 then 1 else entriesCmp ops xs ys
 end
 
-/-- outcome of `cmp` at top level -/
-inductive Res where
-  | ok (c : Int)
-  | exc (name : String)
-  deriving Repr, DecidableEq
-
 /-- size in bytes of the plain struct types the harness declares (type 0 is declared with size 0) -/
 def plainSize : Nat → Nat
   | 0 => 0 | 1 => 4 | 2 => 4 | 3 => 16 | _ => 0
-
-/-- `cmp` of src/Cmp.c: the type's own `Cmp` instance when there is one; otherwise, for two objects of one type of
-    non-zero size, `memcmp` over that size; otherwise `TypeError`. -/
-def cmpTop (ops : FloatOps UInt64) (a b : Val) : Res :=
-  match a, b with
-  | .plain ta xs, .plain tb ys =>
-    if ta = tb ∧ plainSize ta ≠ 0 then .ok (bytesCmp xs ys) else .exc "TypeError"
-  | a, b => .ok (valCmp ops a b)
 
 /-! ### kinds of values, and "equal content" (used by the statement of C09 on the whole value universe) -/
 
 /-- the kinds inside which `cmp` is claimed to be an order: both operands Int, both Float (no NaN), both String, both
     Type, both the same plain struct type, both sequences (Array, List or Tuple — the container kinds may differ) with
-    elements of one kind, both Trees with keys of one kind and values of one kind -/
+    elements of one kind, both Trees with keys of one kind and values of one kind — and sequences with a kind PER SLOT
+    (what a Tuple normally is, `tuple($I(1), $S("ab"), $F(2.0))`, and what Zip hands out): `nil` is the empty sequence,
+    `cons h t` a sequence that is empty or whose first element has kind `h` and whose remaining elements form a sequence of
+    kind `t` (so `cons .int (cons .str nil)` = "an Int, then a String, any prefix of that"; `cons .int (seq .str)` = "an Int,
+    then Strings").  The kinds are prefix-closed: sequences of different lengths are inside one kind. -/
 inductive Kind where
   | int | flt | str | typ
   | plain (tid : Nat)
   | seq (e : Kind)
   | tree (k v : Kind)
+  | nil
+  | cons (h t : Kind)
+
+/-- the kind of heterogeneous Tuples with the given kinds slot by slot (and of every prefix of such a Tuple) -/
+def Kind.tup : List Kind → Kind
+  | [] => .nil
+  | k :: ks => .cons k (Kind.tup ks)
 
 /-- kinds that contain no Float at any level: for these nothing is assumed about floating point -/
 def Kind.floatFree : Kind → Prop
   | .flt => False
   | .seq e => e.floatFree
   | .tree k v => k.floatFree ∧ v.floatFree
+  | .cons h t => h.floatFree ∧ t.floatFree
   | _ => True
+
+/-- a C string / a type name holds no NUL byte -/
+def NulFree (bs : List UInt8) : Prop := ∀ x ∈ bs, x ≠ 0
 
 def hasKind : Kind → Val → Prop
   | .int, .int _ => True
   | .flt, .flt b => fIsNaN b = false
-  | .str, .str _ => True
-  | .typ, .typ _ => True
+  | .str, .str bs => NulFree bs
+  | .typ, .typ bs => NulFree bs
   | .plain t, .plain t' _ => t' = t
   | .seq e, .seq _ xs => ∀ x ∈ xs, hasKind e x
   | .tree k v, .tree kvs => ∀ p ∈ kvs, hasKind k p.1 ∧ hasKind v p.2
+  | .nil, .seq _ xs => xs = []
+  | .cons _ _, .seq _ [] => True
+  | .cons h t, .seq s (x :: xs) => hasKind h x ∧ hasKind t (.seq s xs)
   | _, _ => False
 
 mutual
@@ -288,16 +363,17 @@ def allSame (ts : List Nat) : Bool :=
   | t :: rest => rest.all (· == t)
 
 mutual
-/-- a value the harness can build: Array/List elements all of one type among Int, Float, String, Array, List; Tuple
-    elements anything but plain structs and Type objects (the same object twice in a Tuple is known finding F13); Tree keys of one type among Int, Float, String, values likewise -/
+/-- a value the harness can build: Array/List elements all of one type among Int, Float, String, Array, List, Tuple; Tuple
+    elements anything but plain structs and Type objects (the same object twice in a Tuple is known finding F13); Tree keys
+    of one type among Int, Float, String, values of one type among those and Tuple -/
 def Val.valid : Val → Bool
   | .int _ | .str _ | .typ _ => true
   | .flt b => !fIsNaN b
   | .plain tid bs => tid < 4 && bs.length == plainSize tid
   | .seq .tuple xs => validList xs && xs.all (fun x => x.ctype != 4 && x.ctype != 3)
-  | .seq _ xs => validList xs && allSame (xs.map Val.ctype) && (xs.all fun x => x.ctype ∈ [0, 1, 2, 5, 6])
+  | .seq _ xs => validList xs && allSame (xs.map Val.ctype) && (xs.all fun x => x.ctype ∈ [0, 1, 2, 5, 6, 7])
   | .tree kvs => validPairs kvs && allSame (kvs.map (·.1.ctype)) && allSame (kvs.map (·.2.ctype)) &&
-      (kvs.all fun kv => kv.1.ctype ∈ [0, 1, 2] && kv.2.ctype ∈ [0, 1, 2])
+      (kvs.all fun kv => kv.1.ctype ∈ [0, 1, 2] && kv.2.ctype ∈ [0, 1, 2, 7])
 def validList : List Val → Bool
   | [] => true
   | x :: xs => x.valid && validList xs
@@ -326,13 +402,43 @@ end
 def runnable (a b : Val) : Bool :=
   a.valid && b.valid && (comparable a b || (a.ctype == 4 && b.ctype == 4))
 
+/-- outcome of `cmp` at top level -/
+inductive Res where
+  | ok (c : Int)
+  | exc (name : String)
+  | outside            -- the code goes through a conversion the model does not carry (`c_str` of a Type, a Tree walked as a sequence of its keys, operands that stop matching somewhere below the top): no claim
+  deriving Repr, DecidableEq
+
+/-- `cmp` of src/Cmp.c on two values: a plain struct as `self` has no `Cmp` instance — `memcmp` over the size for two objects
+    of one type of non-zero size, otherwise `TypeError`; every other `self` goes to its type's own comparison, which is
+    `valCmp` when the two operands match in shape at every level (`comparable`).  When they do not match at the top the
+    type's comparison raises while converting `obj`: Int_Cmp / Float_Cmp / String_Cmp through `c_int` / `c_float` / `c_str`
+    (ClassError: the class is not implemented), Type_Cmp through `cast(obj, Type)` (ValueError), the sequence and Tree
+    loops through `iter_init(obj)` (ClassError).  Never the `0` that `valCmp`'s catch-all arm has. -/
+def cmpTop (ops : FloatOps UInt64) (a b : Val) : Res :=
+  match a, b with
+  | .plain ta xs, .plain tb ys =>
+    if ta = tb ∧ plainSize ta ≠ 0 then .ok (bytesCmp xs ys) else .exc "TypeError"
+  | .plain _ _, _ => .exc "TypeError"
+  | a, b =>
+    if comparable a b then .ok (valCmp ops a b)
+    else match a, b with
+      | .typ _, _ => .exc "ValueError"
+      | .str _, .typ _ => .outside
+      | .seq _ _, .seq _ _ | .seq _ _, .tree _ | .tree _, .seq _ _ | .tree _, .tree _ => .outside
+      | _, _ => .exc "ClassError"
+
 /-! ### objects: identity, sharing, and how each comparison loop moves along its operands
 
   A Tuple holds REFERENCES: nothing stops one object being referenced from several slots (`tuple(one, one, two)`), from
   both operands, or an operand being compared with itself.  Array, List and Tree hold COPIES of what is put into them, so
-  inside those no two slots ever share an object.  The comparison loops of src/Array.c, List.c, Tuple.c advance along
+  no two of THEIR slots ever share an object — but the copy of a Tuple (an Array / List with element type Tuple, a Tree with
+  value type Tuple) is made by Tuple_Assign, which copies the item POINTERS: the embedded Tuple references the very objects
+  the source Tuple references, twice if the source did.  So sharing reaches into containers through their Tuple elements
+  (`Obj.cont`, `Obj.tree`).  The comparison loops of src/Array.c, List.c, Tuple.c advance along
   `self` either by slot index (`i++; item0 = t->items[i];`) or through the type's iterator
-  (`item0 = X_Iter_Next(self, item0);`), and along `obj` always through `iter_next(obj, item1)`.  What the iterator does:
+  (`item0 = X_Iter_Next(self, item0);`), and along `obj` always through `iter_next(obj, item1)`; Tree_Cmp walks both Trees
+  through Tree_Iter_Next (the in-order successor: by position) and compares key, then value.  What the iterator does:
 
     Array_Iter_Next   the next address (`(char*)curr + Array_Step(a)`)           — by position
     List_Iter_Next    the node's next link                                         — by position
@@ -344,11 +450,17 @@ def runnable (a b : Val) : Bool :=
 
 open CelloGen.Cmp (Walk Discipline)
 
-/-- an object as far as `cmp` can see it: a Tuple with its slots (object identity, object), or anything else — which has
-    no shared parts (`.val (.seq .tuple xs)` is a Tuple whose slots are pairwise distinct objects) -/
+/-- an object as far as `cmp` can see it: a Tuple with its slots (object identity, object); an Array / List whose
+    elements are objects with parts of their own (`cont`: the elements are the container's own copies, pairwise distinct
+    objects — what THEY reference is shared with whatever they were copied from); a Tree whose values are such objects
+    (`tree`: entries in iteration order; the keys the engine builds are scalars, copies without parts); or anything else —
+    which has no shared parts (`.val (.seq .tuple xs)` is a Tuple whose slots are pairwise distinct objects, `.val (.seq
+    .array xs)` an Array all of whose parts, at any depth, are objects of their own) -/
 inductive Obj where
   | val (v : Val)
   | tuple (slots : List (Nat × Obj))
+  | cont (k : SeqKind) (slots : List (Nat × Obj))
+  | tree (ents : List (Val × Obj))
 
 abbrev Slot := Nat × Obj
 
@@ -357,9 +469,14 @@ mutual
 def Obj.content : Obj → Val
   | .val v => v
   | .tuple ss => .seq .tuple (contents ss)
+  | .cont k ss => .seq k (contents ss)
+  | .tree es => .tree (entContents es)
 def contents : List (Nat × Obj) → List Val
   | [] => []
   | (_, o) :: rest => o.content :: contents rest
+def entContents : List (Val × Obj) → List (Val × Val)
+  | [] => []
+  | (k, o) :: rest => (k, o.content) :: entContents rest
 end
 
 /-- the elements of an Array / List (copies: pairwise distinct objects), numbered from `n` -/
@@ -367,11 +484,23 @@ def enumSlots (n : Nat) : List Val → List Slot
   | [] => []
   | x :: xs => (n, .val x) :: enumSlots (n + 1) xs
 
+/-- the entries of a Tree without shared parts -/
+def valEnts : List (Val × Val) → List (Val × Obj)
+  | [] => []
+  | (k, v) :: rest => (k, .val v) :: valEnts rest
+
 /-- the sequence type of an object and its slots -/
 def Obj.seqView : Obj → Option (SeqKind × List Slot)
   | .tuple ss => some (.tuple, ss)
+  | .cont k ss => some (k, ss)
   | .val (.seq k xs) => some (k, enumSlots 0 xs)
-  | .val _ => none
+  | _ => none
+
+/-- the entries of a Tree object -/
+def Obj.treeView : Obj → Option (List (Val × Obj))
+  | .tree es => some es
+  | .val (.tree kvs) => some (valEnts kvs)
+  | _ => none
 
 /-- what is left of `items[]` after the first slot holding the object `id` (nothing when it is not there) -/
 def afterFirst (id : Nat) : List Slot → List Slot
@@ -398,14 +527,17 @@ def selfWalk (D : Discipline) : SeqKind → Walk
 
 mutual
 /-- `cmp(self, obj)` on objects under the discipline `D`, with fuel: `none` = the loops did not come to an end within `fuel`
-    steps (an identity walk over a repeated object never does).  Pairs that are not two sequences have no shared parts
-    that matter and go to `valCmp`. -/
+    steps (an identity walk over a repeated object never does).  Two sequences go through the loop of X_Cmp, two Trees
+    through the loop of Tree_Cmp; other pairs have no shared parts that matter and go to `valCmp`. -/
 def objCmpF (D : Discipline) (ops : FloatOps UInt64) : Nat → Obj → Obj → Option Int
   | 0, _, _ => none
   | f + 1, a, b =>
     match a.seqView, b.seqView with
     | some (k0, s0), some (k1, s1) => loopF D ops k0 k1 s0 s1 f s0 s1
-    | _, _ => some (valCmp ops a.content b.content)
+    | _, _ =>
+      match a.treeView, b.treeView with
+      | some e0, some e1 => treeLoopF D ops f e0 e1
+      | _, _ => some (valCmp ops a.content b.content)
 /-- the `while (true)` loop of Array_Cmp / List_Cmp / Tuple_Cmp: `cur0`, `cur1` are the two cursors -/
 def loopF (D : Discipline) (ops : FloatOps UInt64) (k0 k1 : SeqKind) (all0 all1 : List Slot) :
     Nat → List Slot → List Slot → Option Int
@@ -419,6 +551,20 @@ def loopF (D : Discipline) (ops : FloatOps UInt64) (k0 k1 : SeqKind) (all0 all1 
     | some c =>
       if c < 0 then some (-1) else if c > 0 then some 1
       else loopF D ops k0 k1 all0 all1 f (advance (selfWalk D k0) k0 all0 s0 r0) (advance .byIterator k1 all1 s1 r1)
+/-- the `while (true)` loop of Tree_Cmp: both Trees are walked by position (Tree_Iter_Next is the in-order successor);
+    per entry `cmp(key0, key1)` — scalars — then `cmp(Tree_Get(self, key0), get(obj, key1))`, the two VALUE objects -/
+def treeLoopF (D : Discipline) (ops : FloatOps UInt64) : Nat → List (Val × Obj) → List (Val × Obj) → Option Int
+  | 0, _, _ => none
+  | _ + 1, [], [] => some 0
+  | _ + 1, [], _ :: _ => some (-1)
+  | _ + 1, _ :: _, [] => some 1
+  | f + 1, e0 :: r0, e1 :: r1 =>
+    let c := valCmp ops e0.1 e1.1
+    if c < 0 then some (-1) else if c > 0 then some 1 else
+    match objCmpF D ops f e0.2 e1.2 with
+    | none => none
+    | some c =>
+      if c < 0 then some (-1) else if c > 0 then some 1 else treeLoopF D ops f r0 r1
 end
 
 /-- the discipline that seeded change c09_c introduces: Tuple_Cmp walks `self` through Tuple_Iter_Next -/
@@ -429,19 +575,28 @@ def identityWalk (D : Discipline) : Discipline := { D with tupleSelf := .byItera
 mutual
 def Val.size : Val → Nat
   | .seq _ xs => 2 + Val.sizeList xs
+  | .tree kvs => 2 + Val.sizePairs kvs
   | _ => 1
 def Val.sizeList : List Val → Nat
   | [] => 0
   | x :: xs => x.size + 1 + Val.sizeList xs
+def Val.sizePairs : List (Val × Val) → Nat
+  | [] => 0
+  | (_, v) :: xs => v.size + 1 + Val.sizePairs xs
 end
 
 mutual
 def Obj.size : Obj → Nat
   | .val v => v.size
   | .tuple ss => 2 + slotsSize ss
+  | .cont _ ss => 2 + slotsSize ss
+  | .tree es => 2 + entsSize es
 def slotsSize : List (Nat × Obj) → Nat
   | [] => 0
   | (_, o) :: rest => o.size + 1 + slotsSize rest
+def entsSize : List (Val × Obj) → Nat
+  | [] => 0
+  | (_, o) :: rest => o.size + 1 + entsSize rest
 end
 
 def hasId (id : Nat) : List Slot → Bool
@@ -454,13 +609,20 @@ def idsNodup : List Slot → Bool
   | s :: rest => !hasId s.1 rest && idsNodup rest
 
 mutual
-/-- no Tuple inside the object, at any depth, references one object from two slots -/
+/-- no Tuple inside the object, at any depth — also below an Array, a List, the values of a Tree — references one object from
+    two slots.  (For `cont` the condition on the identities of its own slots is one of well-formedness, not a restriction:
+    the elements of an Array / List are its own copies, pairwise distinct objects.) -/
 def Obj.nodup : Obj → Bool
   | .val _ => true
   | .tuple ss => idsNodup ss && slotsNodup ss
+  | .cont _ ss => idsNodup ss && slotsNodup ss
+  | .tree es => entsNodup es
 def slotsNodup : List (Nat × Obj) → Bool
   | [] => true
   | (_, o) :: rest => o.nodup && slotsNodup rest
+def entsNodup : List (Val × Obj) → Bool
+  | [] => true
+  | (_, o) :: rest => o.nodup && entsNodup rest
 end
 
 /-- fuel the driver gives a comparison: enough whenever the loops end at all (a walk that ends visits no slot twice) -/
